@@ -569,3 +569,36 @@ func (s *synthField) Type() types.Type              { return s.field.Type() }
 func (s *synthField) Parent() *ssa.Function         { return s.base.Parent() }
 func (s *synthField) Referrers() *[]ssa.Instruction { return nil }
 func (s *synthField) Pos() token.Pos                { return s.base.Pos() }
+
+// freshSliceRoot: root (as returned by accessPath) is a slice allocated right there:
+// make, append onto nil / onto a fresh slice, bytes.Clone / slices.Clone, []byte(string).
+func freshSliceRoot(root ssa.Value) bool {
+	for d := 0; d < 4; d++ {
+		switch x := strip(root).(type) {
+		case *ssa.MakeSlice:
+			return true
+		case *ssa.Convert:
+			_, fromString := x.X.Type().Underlying().(*types.Basic)
+			return fromString
+		case *ssa.Call:
+			if b, ok := x.Call.Value.(*ssa.Builtin); ok && b.Name() == "append" && len(x.Call.Args) >= 1 {
+				if isNilConst(x.Call.Args[0]) {
+					return true
+				}
+				if cst, ok := strip(x.Call.Args[0]).(*ssa.Const); ok && cst.Value == nil {
+					return true
+				}
+				root, _ = accessPath(x.Call.Args[0])
+				continue
+			}
+			switch calleeID(x) {
+			case "bytes.Clone", "slices.Clone":
+				return true
+			}
+			return false
+		default:
+			return false
+		}
+	}
+	return false
+}
